@@ -91,7 +91,7 @@ def _corpus(chk):
 def run(chk):
     chk.build_rust(); chk.build_js()
     quick = chk.tier == "quick"
-    passes = [_corpus, _corpus_prog] + ([_pass(chk.seed * 100 + 7, 6000, "rt(random)"), _pass_prog(chk.seed * 100 + 8, 1200, "compiled-strict(random)"), _pass_sem(chk.seed * 100 + 9, 400, "materialised-strict(random)")] if quick else
+    passes = [_corpus, _corpus_prog] + ([_pass(chk.seed * 100 + 7, 12000, "rt(random)"), _pass_prog(chk.seed * 100 + 8, 2400, "compiled-strict(random)"), _pass_sem(chk.seed * 100 + 9, 800, "materialised-strict(random)")] if quick else
                           [_pass_sem(chk.seed * 100 + 60 + k, 4000, f"materialised-strict(random#{k})") for k in range(2)] +
                           [_pass(chk.seed * 100 + k, 25000, f"rt(random#{k})") for k in range(8)] + [_pass_prog(chk.seed * 100 + 50 + k, 8000, f"compiled-strict(random#{k})") for k in range(3)])
     return vcheck.generic_run(chk, MODULES, AUDIT, passes,
